@@ -84,6 +84,8 @@ pub fn apply(img: &mut Vec<u8>, g: &Geom, field: &str, class: &str) {
         ("rtoff", "huge") => p64(img, 48, 1u64 << 62),
         ("rtoff", _) => p64(img, 48, 0),
         ("l1size", "zero") => p32(img, 36, 0),
+        // one entry fewer than the virtual size needs (at least one)
+        ("l1size", "short") => p32(img, 36, ((h.size.div_ceil(cs * (cs / 8)) as u32).saturating_sub(1)).max(1)),
         // the byte size wraps in 32-bit arithmetic
         ("l1size", "wrap") => p32(img, 36, (1 << 29) + 1),
         ("l1size", _) => p32(img, 36, 0xffff_ffff),
@@ -121,6 +123,11 @@ pub fn apply(img: &mut Vec<u8>, g: &Geom, field: &str, class: &str) {
                 "lenbeyond" => {
                     p32(img, o, 0x1234_5678);
                     p32(img, o + 4, (cs as u32) * 2);
+                }
+                // the data ends behind the first 4 KiB (what is read first) but inside the first cluster
+                "lengap" => {
+                    p32(img, o, 0x1234_5678);
+                    p32(img, o + 4, 4096 + 512);
                 }
                 "feat1" => {
                     p32(img, o, 0x6803_f857);
